@@ -5,7 +5,20 @@
    entry = ReloadFromFile | UpdateRawData | RevertToLastLoaded | RevertToDiagnosisFree
    and d is the data the entry point built from its file (RevertToDiagnosisFree
    sets PoliciesData.diagnosisFreeReverted on it).  forget = the history of
-   Model.v in which every entry point is Update d now. *)
+   Model.v in which every entry point is Update d now.
+
+   Variants (Failsafe.evariant): ehead = the code as it is (the variant the
+   positive theorems are about), standin_dropped = seed C11-9 (refuted).  Not to
+   be confused with Fine.fhead of PropertyFine.v, which is the code BEFORE
+   fix-F-C11a and is the refuted variant there.
+
+   Bridge: Failsafe.v has no correspondence suite of its own.  For ehead, estep
+   ignores which entry point was used (estep_head_base holds by reflexivity per
+   constructor), so the theorems below are a definitional lift of Property.v
+   along forget; that the four Go entry points really end in the same
+   setNextVersion is checked by the suites hist / routing / fine, whose updates
+   are driven through the real entry points (harness entry.go) and recorded as
+   Update / UpdBegin. *)
 From Coq Require Import List ZArith Bool Lia Sorted.
 From Verif Require Import C11.Model C11.Proofs C11.Failsafe.
 Import ListNotations.
@@ -17,8 +30,8 @@ Open Scope Z_scope.
    updates and fail-safe reverts in any order (the two main ones are restated
    below). *)
 Theorem C11_entry_points_are_updates : forall d0 h,
-  ebase (eafter fhead (einit d0) h) = after (init d0) (map forget h) /\
-  eouts fhead (einit d0) h = outs (init d0) (map forget h).
+  ebase (eafter ehead (einit d0) h) = after (init d0) (map forget h) /\
+  eouts ehead (einit d0) h = outs (init d0) (map forget h).
 Proof.
   intros d0 h. split.
   - exact (eafter_head_base h (einit d0)).
@@ -34,7 +47,7 @@ Print Assumptions C11_entry_points_are_updates.
    applied while it is active) before t: the second look-up returns what the
    first returned, the version current at t0 with the data built by the last
    entry point that got through before t0, no fallback. *)
-Theorem C11_pinned_across_failsafe : pinned_entry_v fhead.
+Theorem C11_pinned_across_failsafe : pinned_entry_v ehead.
 Proof. exact pinned_entry_head. Qed.
 Print Assumptions C11_pinned_across_failsafe.
 
@@ -42,7 +55,7 @@ Print Assumptions C11_pinned_across_failsafe.
    while every clock reading of mid lies in [t0, t0 + ttl] the version current
    at t0 stays in policiesVersions with its data, whichever entry point
    installed it and whichever entry points supersede it. *)
-Theorem C11_retention_across_failsafe : retention_entry_v fhead.
+Theorem C11_retention_across_failsafe : retention_entry_v ehead.
 Proof. exact retention_entry_head. Qed.
 Print Assumptions C11_retention_across_failsafe.
 
@@ -55,11 +68,35 @@ Example C11_pinned_across_failsafe_applies :
   let mid := [Via RevertToLastLoaded 12 7; EA (Get 3 8); Via ReloadFromFile 13 9;
               EA (VacTxn (6 + ttl)); EA (VacVer (6 + ttl))] in
   let h := pre ++ EA (Get 7 6) :: mid ++ [EA (Get 7 (6 + ttl)); EA (Get 3 (6 + ttl))] in
-  lookup 7 (pins (ebase (eafter fhead (einit 10) pre))) = None /\
-  map o_data (eouts fhead (einit 10) h) = [Some 10; Some 11; Some 10; Some 11; Some 13] /\
-  map o_ver (eouts fhead (einit 10) h) = [1; 2; 1; 2; 4] /\
-  map o_fallback (eouts fhead (einit 10) h) = [false; false; false; false; false].
+  lookup 7 (pins (ebase (eafter ehead (einit 10) pre))) = None /\
+  map o_data (eouts ehead (einit 10) h) = [Some 10; Some 11; Some 10; Some 11; Some 13] /\
+  map o_ver (eouts ehead (einit 10) h) = [1; 2; 1; 2; 4] /\
+  map o_fallback (eouts ehead (einit 10) h) = [false; false; false; false; false].
 Proof. vm_compute. repeat split. Qed.
+
+(* the same history: the monotone-clock hypothesis of C11_pinned_across_failsafe
+   and both hypotheses of C11_retention_across_failsafe are met (mid: two entry
+   points, a look-up and both vacuum passes, the passes at exactly t0 + ttl), and
+   the conclusion computed: version 2 = the version current at t0 = 6 is retained
+   after mid with the diagnosis-free data 11 *)
+Example C11_retention_across_failsafe_applies :
+  let pre := [EA (Get 3 0); Via RevertToDiagnosisFree 11 5] in
+  let mid := [Via RevertToLastLoaded 12 7; EA (Get 3 8); Via ReloadFromFile 13 9;
+              EA (VacTxn (6 + ttl)); EA (VacVer (6 + ttl))] in
+  monotone (map forget (pre ++ EA (Get 7 6) :: mid ++ [EA (Get 7 (6 + ttl))])) /\
+  lookup 7 (pins (ebase (eafter ehead (einit 10) pre))) = None /\
+  Forall (fun a => 6 <= time_of (forget a) <= 6 + ttl) mid /\
+  cur (ebase (eafter ehead (einit 10) pre)) = 2 /\
+  last_data 10 (map forget pre) = 11 /\
+  lookup 2 (vers (ebase (eafter ehead
+      (fst (estep ehead (eafter ehead (einit 10) pre) (EA (Get 7 6)))) mid))) = Some 11.
+Proof.
+  cbn zeta. split; [|split; [|split]].
+  - unfold monotone. vm_compute. repeat (constructor; try (intro X; discriminate X)).
+  - vm_compute. reflexivity.
+  - repeat constructor; vm_compute; discriminate.
+  - vm_compute. repeat split.
+Qed.
 
 (* ---- the variant "the diagnosis-free stand-in is dropped the moment it is
    superseded" violates both ----
@@ -102,8 +139,8 @@ Example C11_standin_dropped_witness :
   map o_fallback (eouts standin_dropped (einit 10) h) = [false; true; false] /\
   map fst (vers (ebase (eafter standin_dropped (einit 10) h))) = [1; 3] /\
   map snd (verQ (ebase (eafter standin_dropped (einit 10) h))) = [1] /\
-  map o_data (eouts fhead (einit 10) h) = [Some 11; Some 11; Some 12] /\
-  map fst (vers (ebase (eafter fhead (einit 10) h))) = [1; 2; 3].
+  map o_data (eouts ehead (einit 10) h) = [Some 11; Some 11; Some 12] /\
+  map fst (vers (ebase (eafter ehead (einit 10) h))) = [1; 2; 3].
 Proof. vm_compute. repeat split. Qed.
 
 (* the variant differs from HEAD only when a flagged version is superseded:
@@ -112,13 +149,13 @@ Proof. vm_compute. repeat split. Qed.
 Theorem C11_standin_variant_same_without_diagnosis_free : forall h s,
   flagged s = [] ->
   Forall (fun a => match a with Via RevertToDiagnosisFree _ _ => False | _ => True end) h ->
-  eafter standin_dropped s h = eafter fhead s h.
+  eafter standin_dropped s h = eafter ehead s h.
 Proof.
   induction h as [|a h IH]; intros s Fl F; [reflexivity|].
   inversion F as [|? ? Ha Fh]; subst.
   cbn [eafter fold_left].
-  assert (E : fst (estep standin_dropped s a) = fst (estep fhead s a) /\
-              flagged (fst (estep fhead s a)) = []).
+  assert (E : fst (estep standin_dropped s a) = fst (estep ehead s a) /\
+              flagged (fst (estep ehead s a)) = []).
   { destruct a as [a|e d now].
     - destruct a; cbn; unfold update_v, is_flagged; rewrite ?Fl; cbn; split; (reflexivity || assumption).
     - destruct e; cbn in Ha |- *; try contradiction;
